@@ -134,7 +134,15 @@ def build_screen_case(rng, w):
     stream = []
     stream.append(('cmd', [CMD_INIT, sw & 255, sw >> 8, sh & 255, sh >> 8, bpp, psize & 255, psize >> 8]))
     nfr = rng.randint(1, 5)
-    for _ in range(nfr):
+    reinit_at = rng.randrange(1, nfr + 1) if rng.random() < 0.35 else None
+    max_pixels = sw * sh
+    for fi in range(nfr):
+        if reinit_at == fi:
+            # a mode change in mid-stream: later commands must be framed and decoded with the NEW geometry
+            sw, sh = rng.choice([(1, 1), (2, 1), (2, 2), (3, 2), (4, 4), (4, 2), (3, 3)])
+            bpp = rng.choice([4, 8])
+            max_pixels = max(max_pixels, sw * sh)
+            stream.append(('cmd', [CMD_INIT, sw & 255, sw >> 8, sh & 255, sh >> 8, bpp, psize & 255, psize >> 8]))
         r = rng.random()
         if r < 0.25:
             stream.append(('cmdaddr', [CMD_PALETTE], PAL))
@@ -190,7 +198,7 @@ def build_screen_case(rng, w):
         return 0 if k == 0 else (k + 1)
     code_slots = nops + 1
     fb_slot = code_slots + rng.choice([0, 1, 3])
-    pal_slot = fb_slot + sw * sh + rng.choice([0, 2])
+    pal_slot = fb_slot + max_pixels + rng.choice([0, 2])
     end_slot = pal_slot + 3 * max(psize, 1) + 2
     nwords = 2 * end_slot
     if nwords > (1 << (w - ww)) or nwords > 6000:
@@ -199,7 +207,7 @@ def build_screen_case(rng, w):
     pal_addr = pal_slot * dw
     far_addr = (end_slot + 50) * dw       # outside the segment: packed bytes read 0
     words = [0] * nwords
-    fb = [rng.randrange(256) for _ in range(sw * sh)]
+    fb = [rng.randrange(256) for _ in range(max_pixels)]
     pal = [rng.randrange(256) for _ in range(3 * psize)]
     for k, v in enumerate(fb):
         words[2 * (fb_slot + k) + 1] = (v << dbit) & ((1 << w) - 1)
